@@ -71,6 +71,11 @@ impl EventSource for TcpListenerAccept<'_> {
         let _handle = crate::coroutine_impl::co_get_handle(&co);
         let io_data = (**self.io_data).clone();
         // if there is no timer we don't need to call add_io_timer
+        // register the cancel io data before the coroutine is published: afterwards it
+        // can be resumed and block somewhere else, a registration done then would be
+        // stale and make a cancel wake whoever waits on this socket at that time
+        #[cfg(feature = "io_cancel")]
+        cancel.set_io(io_data.clone());
         io_data.co.store(co);
 
         // there is event happened
@@ -79,14 +84,11 @@ impl EventSource for TcpListenerAccept<'_> {
             return io_data.fast_schedule();
         }
 
+        // re-check the cancel status. a canceller that came before the coroutine was
+        // stored has consumed the registration and found nothing: wake it up here
         #[cfg(feature = "io_cancel")]
-        {
-            // register the cancel io data
-            cancel.set_io(io_data.clone());
-            // re-check the cancel status
-            if cancel.is_canceled() {
-                unsafe { cancel.cancel() };
-            }
+        if cancel.is_canceled() {
+            io_data.schedule();
         }
     }
 }
